@@ -113,6 +113,17 @@ def self_validate(prop: str, base: Ctx) -> dict:
     return res
 
 
+def alpha_invariance(prop: str, base: Ctx, suffix: str = "_v") -> list:
+    """Whole-tree benign variant: every local of every function renamed (sa/alpha.py).  -> obligations that are not discharged
+    there although they are on the real tree (keys compared modulo the suffix)."""
+    from .alpha import rename_locals
+    ov = rename_locals(SourceTree(REPO), suffix)
+    strip = lambda k: k.replace(suffix, "")
+    ref = {(o.rule, strip(o.key), o.outcome) for o in base.obs}
+    ctx = run_rules(prop, ov)
+    return [(o.outcome, o.rule, o.key, o.file, o.line, o.msg[:200]) for o in ctx.obs if o.outcome != OK and (o.rule, strip(o.key), o.outcome) not in ref]
+
+
 # ----------------------------------------------------------------------
 
 def main(argv=None) -> int:
@@ -159,6 +170,11 @@ def main(argv=None) -> int:
     if a.tier == "thorough" and not errs:
         try:
             sv = self_validate(prop, ctx)
+            al = alpha_invariance(prop, ctx)
+            sv["alpha_renaming_new_alarms"] = len(al)
+            for x in al[:5]:
+                sv["failures"].append({"benign": "all-locals-renamed", "state": "ran", "new_violations": [x], "errors": [],
+                                       "why": "renaming local variables (behaviour preserved) changed a verdict: the rule depends on what a local is called"})
         except Exception as e:
             print(f"ANALYSIS-ERROR property={prop} self-validation crashed: {type(e).__name__}: {e}")
             traceback.print_exc()
@@ -251,7 +267,8 @@ def main(argv=None) -> int:
         print(f"   self-validation: mutants {sv['mutants_killed']}/{sv['mutants_total']} reported "
               f"({sv['mutants_inapplicable']} inapplicable to this tree), benign variants "
               f"{sv['benign_silent']}/{sv['benign_total']} silent ({sv['benign_inapplicable']} inapplicable)"
-              + (f"; inapplicable: {', '.join(sv['inapplicable'])}" if sv["inapplicable"] else ""))
+              + (f"; inapplicable: {', '.join(sv['inapplicable'])}" if sv["inapplicable"] else "")
+              + f"; all-locals-renamed variant: {sv.get('alpha_renaming_new_alarms', 0)} new alarms")
     for l in lines:
         print(l)
     if unlisted:
